@@ -8,7 +8,7 @@ vars == <<tid, l, st, verdict>>
 Ev == Traces[tid].events
 Sc == Traces[tid].scenario
 Abs(x) == IF x < 0 THEN -x ELSE x
-St0 == [nops |-> 0, rebootPending |-> FALSE, failsSinceReboot |-> 0, probes |-> 0]
+St0 == [nops |-> 0, rebootPending |-> FALSE, failsSinceReboot |-> 0, probes |-> 0, drift |-> 0]
 DiscoKind == IF Has(Sc, "disco") THEN Sc.disco ELSE "ok"
 
 InWindow(r) == ~r.auth \/ (r.boots = r.agent_boots /\ Abs(r.time - r.agent_time) <= 150)
@@ -17,6 +17,8 @@ OnOp(s, e) ==
       failed == e.ret = "exc"
       reqs == e.reqs IN
   [st |-> [s EXCEPT !.nops = @ + 1, !.probes = @ + e.probes,
+                    \* spec -> code replay: the outcome UsmTime.tla predicted for this request of a TLC-generated behaviour
+                    !.drift = IF Has(Sc, "predicted") /\ s.nops + 1 <= Len(Sc.predicted) /\ (Sc.predicted[s.nops + 1] = "ok") # (e.ret = "ok") THEN @ + 1 ELSE @,
                     !.rebootPending = IF reqs # <<>> THEN FALSE ELSE @,
                     !.failsSinceReboot = IF failed THEN @ + 1 ELSE @],
    cl |-> IF DiscoKind # "ok"
@@ -38,7 +40,7 @@ Step == /\ l <= Len(Ev)
         /\ LET r == On(st, Ev[l]) v == FirstFalse(r.cl) IN
              /\ st' = r.st /\ verdict' = IF verdict[1] = "ok" /\ v # "ok" THEN <<v, l>> ELSE verdict
         /\ l' = l + 1 /\ UNCHANGED tid
-Fin  == /\ l = Len(Ev) + 1 /\ PrintT(<<"VERDICT", tid, verdict[1], verdict[2], st.probes>>) /\ l' = l + 1 /\ UNCHANGED <<tid, st, verdict>>
+Fin  == /\ l = Len(Ev) + 1 /\ PrintT(<<"VERDICT", tid, verdict[1], verdict[2], st.drift, st.probes>>) /\ l' = l + 1 /\ UNCHANGED <<tid, st, verdict>>
 Next == Step \/ Fin
 Spec == Init /\ [][Next]_vars
 ====
